@@ -781,10 +781,16 @@ func lenOf(v ssa.Value, gf *GuardFlow, r resRef) bool {
 
 // errTargetName names the second argument of errors.Is / errors.As: a package
 // level variable ("pkg.ErrX"), or for errors.As the pointed-to type.
+// ErrTargetName is the exported errTargetName.
+func ErrTargetName(v ssa.Value) string { return errTargetName(v) }
+
 func errTargetName(v ssa.Value) string {
 	for {
 		switch x := v.(type) {
 		case *ssa.MakeInterface:
+			if c, ok := x.X.(*ssa.Const); ok && c.Value != nil {
+				return "const:" + Short(types.TypeString(c.Type(), nil)) + "=" + c.Value.ExactString()
+			}
 			v = x.X
 			continue
 		case *ssa.ChangeInterface:
@@ -1273,6 +1279,15 @@ func Never(name string) Guard {
 
 // knownNonNil: block b is dominated by the non-nil outcome of a nil test of v
 // (`if v != nil {` true edge or `if v == nil {` false edge).
+// KnownNonNil is the exported form of knownNonNil that also accepts freshly constructed errors.
+func KnownNonNil(mr *MemReach, v ssa.Value, b *ssa.BasicBlock) bool {
+	v = mr.Canon(v)
+	if classifySuccess(v, true) == triF {
+		return true
+	}
+	return knownNonNil(mr, v, b)
+}
+
 func knownNonNil(mr *MemReach, v ssa.Value, b *ssa.BasicBlock) bool {
 	v = mr.Canon(v)
 	fn := b.Parent()
